@@ -88,18 +88,21 @@ fn check_value_inner(ty: &Ty, v: &V) -> Result<(), (&'static str, String)> {
         }
     }
     // 2. decode: original value, consumed exactly the bytes written (with trailing sentinel bytes present)
-    let mut with_tail = bytes.clone();
-    with_tail.extend_from_slice(&[0x99, 0x98]);
-    match real_decode(ty, &with_tail) {
-        Ok((dv, consumed)) => {
-            if &dv != v {
-                return Err(("round-trip-value", format!("decoded {} from {:02x?}", truncate(&format!("{dv:?}"), 200), truncate_bytes(&bytes))));
+    // (tails of 2, 9 and 17 bytes: a decoder may take another path when 8 or 16 bytes are left in the buffer)
+    for tail_len in [2usize, 9, 17] {
+        let mut with_tail = bytes.clone();
+        with_tail.extend((0..tail_len).map(|k| 0x99 - k as u8));
+        match real_decode(ty, &with_tail) {
+            Ok((dv, consumed)) => {
+                if &dv != v {
+                    return Err(("round-trip-value", format!("decoded {} from {:02x?} followed by {tail_len} more bytes", truncate(&format!("{dv:?}"), 200), truncate_bytes(&bytes))));
+                }
+                if consumed != bytes.len() {
+                    return Err(("round-trip-consumed", format!("decoder consumed {consumed} bytes of a {}-byte encoding followed by {tail_len} more bytes", bytes.len())));
+                }
             }
-            if consumed != bytes.len() {
-                return Err(("round-trip-consumed", format!("decoder consumed {consumed} bytes of a {}-byte encoding", bytes.len())));
-            }
+            Err(e) => return Err(("round-trip-error", format!("decoding the encoder's output {:02x?} (followed by {tail_len} more bytes) failed: {:?}", truncate_bytes(&bytes), e.rendered))),
         }
-        Err(e) => return Err(("round-trip-error", format!("decoding the encoder's output {:02x?} failed: {:?}", truncate_bytes(&bytes), e.rendered))),
     }
     // exact buffer: remaining() == 0 afterwards
     {
@@ -514,13 +517,22 @@ impl Strings {
             small.push("x".repeat(n));
             small.push("é".repeat(n / 2) + if n % 2 == 1 { "y" } else { "" });
         }
+        // multi-byte characters across every power-of-two offset (a decoder that works in chunks): 0..3 ASCII characters
+        // in front shift the characters over the boundary
+        for base in [64usize, 256, 1024, 4096, 8192, 65536] {
+            for k in 0..=3usize {
+                for c in ["é", "€", "😀"] {
+                    small.push("a".repeat(k) + &c.repeat((base + 16) / c.len() + 1));
+                }
+            }
+        }
         Strings { small }
     }
 }
 const SCALAR_CHUNKS: u64 = 0x110000 / 256;
 impl Family for Strings {
     fn name(&self) -> String {
-        "strings/every unicode scalar as 1-char string; all strings len<=3 over {a,NUL,é,€,😀,U+3000}; size-prefix thresholds".into()
+        "strings/every unicode scalar as 1-char string; all strings len<=3 over {a,NUL,é,€,😀,U+3000}; size-prefix thresholds; runs of 2-, 3- and 4-byte characters shifted by 0..3 bytes across every power-of-two offset up to 64 KiB".into()
     }
     fn len(&self) -> u64 {
         SCALAR_CHUNKS + self.small.len() as u64
